@@ -260,7 +260,11 @@ pub fn run(tier: Tier, seed0: u64) -> i32 {
             presented.push(refmodel::hash::sha1_parts(&[&cs, &inner]));
         }
         if let Some(h) = reference {
-            presented.extend(crate::common::altered_proofs(&h, false).into_iter().step_by(7));
+            if i % 40 == 0 {
+                presented.extend(crate::common::altered_proofs(&h, tier == Tier::Thorough && i == 0));
+            } else {
+                presented.extend(crate::common::altered_proofs(&h, false).into_iter().step_by(7));
+            }
         }
         if let Some(h) = reference {
             presented.push(h);
